@@ -287,10 +287,14 @@ def main(argv=None):
     for u in undecided:
         print(f"UNDECIDED property={pid} {u}"[:600])
     print(f"[{pid}] tier={tier} functions={len(fn_reports)} lemmas={len(lemma_reports)} obligations={n_obl} discharged={n_dis} bounded_checks={len(bounded_reports)} bounded_evaluations={sum(b.get('evaluations', 0) for b in bounded_reports)} wall={wall:.1f}s")
-    if errors:
+    if errors and not violations:
         for e in errors:
             print(f"CHECKER-ERROR property={pid} {e}"[:1500])
         return 3
+    if errors:
+        # part of the machinery failed on this tree, but a violation was established independently of it
+        for e in errors:
+            print(f"CHECKER-NOTE property={pid} {e}"[:600])
     if violations:
         seen = set()
         for path, msg, suffix in violations:
